@@ -31,7 +31,7 @@ PROBES = ["completion_reordered", "all_results_from_one_worker", "tie_in_finish_
           "max_ts_at_completion", "max_ts_below_completion", "max_ts_zero", "reps_single_combination",
           "collectors_none", "collectors_empty_list", "collectors_invalid", "parameterlist_input", "serial_order_checked",
           "second_batch_same_process", "parameterlist_reused_edit_returned", "parameterlist_reused_grid_search_first", "sibling_parameterlist_edited",
-          "model_with_own_timestep_attribute"]
+          "model_with_own_timestep_attribute", "collectors_one_shot_iterator"]
 TECHNIQUE = "deterministic simulation: simulated worker pool (seeded durations, tie-breaks, pickle boundary, failing executions at every position) with an exactly-once ledger and self-identifying records"
 LEVEL_TEXT = ("Seeded search over grid shapes, repetitions, step limits, collector selections and simulated pool schedules; an "
               "in-process execution ledger and self-identifying records decide exactly-once, no loss/duplication/mixing, "
@@ -122,7 +122,7 @@ def generate(rng, tier):
     elif r < 0.45:
         coll = {"form": "str", "names": [rng.choice(names)]}
     elif r < 0.8:
-        coll = {"form": rng.choice(["list", "tuple"]), "names": rng.sample(names, rng.randint(1, 3))}
+        coll = {"form": rng.choice(["list", "tuple", "iter"]), "names": rng.sample(names, rng.randint(1, 3))}
     elif r < 0.9:
         coll = {"form": "list", "names": []}
     else:
@@ -197,6 +197,8 @@ def build_args(sc):
         coll = list(c["names"])
     elif form == "tuple":
         coll = tuple(c["names"])
+    elif form == "iter":
+        coll = iter(list(c["names"]))      # several names handed over as a one-shot iterable
     else:
         coll = c["v"]
     return params, combos, coll
@@ -322,6 +324,8 @@ def one_batch(ctx, sc, fail, label):
     ctx.check(isinstance(val, list), "result-type", f"{type(val).__name__}")
     if form != "str" and not sc["collectors"]["names"]:
         ctx.probe("collectors_empty_list")
+    if form == "iter":
+        ctx.probe("collectors_one_shot_iterator")
     want = [expected_result(s, sc) for s in E]
     got_n = sorted((norm(x) for x in val), key=repr)
     want_n = sorted((norm(x) for x in want), key=repr)
